@@ -936,6 +936,87 @@ def describe_origin(f, o, depth=0):
     return k
 
 
+def stable_origin(f, o, depth=0, _seen=None):
+    """like describe_origin, but free of the names of locals and parameters (a renamed variable must not change an
+    obligation key): parameters by position, multiply-assigned locals by the set of what is assigned to them, captured
+    variables by capture index"""
+    if depth > 12 or o is None:
+        return "?"
+    _seen = _seen or set()
+    k = o[0]
+    if k == "param":
+        return "P%d" % o[1]
+    if k == "call":
+        t = o[1]
+        c = t.get("callee") or ""
+        if c in TRANSPARENT_CALLEES and t["args"]:
+            return stable_origin(f, f.origin_op(t["args"][0]), depth + 1, _seen)
+        return "call:" + (t.get("resolved") or t.get("callee") or "indirect")
+    if k == "const":
+        return o[1].get("const", "const")
+    if k == "ref":
+        return "&" + stable_origin(f, o[1], depth + 1, _seen)
+    if k == "place":
+        projs = o[2]
+        base = o[1]
+        if f.kind == "Closure" and base == ("param", 1):
+            s = "P1"
+            for i, pr in enumerate(projs):
+                if isinstance(pr, dict) and "f" in pr and all(x == "deref" for x in projs[:i]):
+                    s = "up%s" % pr["f"]
+                    projs = projs[i + 1:]
+                    if projs and projs[0] == "deref":
+                        projs = projs[1:]
+                    break
+        else:
+            s = stable_origin(f, base, depth + 1, _seen)
+        for pr in projs:
+            if pr == "deref":
+                s = "*" + s
+            elif isinstance(pr, dict) and "f" in pr:
+                s += "." + pr["name"]
+            elif isinstance(pr, dict) and "downcast" in pr:
+                s += "@" + pr["downcast"]
+            elif isinstance(pr, dict) and ("idx" in pr or "cidx" in pr):
+                s += "[]"
+        return s
+    if k == "cast":
+        return stable_origin(f, o[1], depth + 1, _seen)
+    if k == "agg":
+        rv = o[1]
+        if rv["agg"] == "adt":
+            return "new:%s::%s" % (rv["adt"], rv["variant"])
+        return "new:" + rv["agg"]
+    if k == "multi":
+        l = o[1]
+        if l in _seen or depth > 4:
+            return "var"
+        if 1 <= l <= f.arg_count:
+            return "P%d" % l
+        seen2 = _seen | {l}
+        parts = set()
+        for d in f.full_defs(l):
+            if d[0] == "call":
+                parts.add("call:" + (d[2].get("resolved") or d[2].get("callee") or "indirect"))
+            else:
+                st = d[3]
+                if st["k"] != "assign":
+                    continue
+                rv = st["rv"]
+                if rv["k"] == "use":
+                    parts.add(stable_origin(f, f.origin_op(rv["op"]), depth + 2, seen2))
+                elif rv["k"] == "binop":
+                    parts.add("binop:" + rv["op"])
+                elif rv["k"] == "ref":
+                    parts.add("&" + stable_origin(f, f.origin_place(rv["place"]), depth + 2, seen2))
+                else:
+                    parts.add(rv["k"])
+        return "var{%s}" % "|".join(sorted(parts))
+    if k == "binop":
+        return "binop:" + o[1]["op"]
+    return k
+
+
 def scc_containing(f, b):
     """blocks x with b ->* x ->* b (the loop around b); empty set if b is not in a cycle"""
     fwd = set()
